@@ -70,9 +70,9 @@ RO == isQuery \/ nestedView > 0
 Top == stack[Len(stack)]
 
 Act(p, amt, sro, iv, ro) ==
-  [t |-> "cfg", p |-> p, pc |-> ProcEntry[p], amt |-> amt, sro |-> sro, ds |-> {}, iv |-> iv, ro |-> ro, nv0 |-> nestedView]
+  [t |-> "cfg", p |-> p, pc |-> ProcEntry[p], amt |-> amt, sro |-> sro, ds |-> {}, nn |-> {}, iv |-> iv, ro |-> ro, nv0 |-> nestedView]
 LuaFrame(ro) ==
-  [t |-> "lua", p |-> "", pc |-> 0, amt |-> 0, sro |-> TRUE, ds |-> {}, iv |-> FALSE, ro |-> ro, nv0 |-> nestedView]
+  [t |-> "lua", p |-> "", pc |-> 0, amt |-> 0, sro |-> TRUE, ds |-> {}, nn |-> {}, iv |-> FALSE, ro |-> ro, nv0 |-> nestedView]
 
 Cmp(x, op, c) == CASE op = "==" -> x = c  [] op = "!=" -> x # c  [] op = ">" -> x > c
                    [] op = ">=" -> x >= c [] op = "<" -> x < c   [] op = "<=" -> x <= c
@@ -87,6 +87,7 @@ Eval(a, n) ==
     [] n.a = "tx"         -> Cmp(B2I(sqlHandle # "none"), n.op, n.c)
     [] n.a = "sro"        -> Cmp(B2I(a.sro), n.op, n.c)
     [] n.a = "deferred"   -> n.c \in a.ds
+    [] n.a = "nl"         -> Cmp(B2I(n.s \in a.nn), n.op, 0)       \* tracked variable ==/!= nil
 
 SetTop(a) == [stack EXCEPT ![Len(stack)] = a]
 Goto(a, pc) == SetTop([a EXCEPT !.pc = pc])
@@ -97,7 +98,7 @@ Init == /\ isQuery = FALSE /\ nestedView = 0          \* Go zero values of a fre
         /\ sqlHandle = "none" /\ rsWritable = FALSE /\ ctxMade = FALSE /\ depth = 0
         /\ viol = NoViol
         /\ \E e \in Entries :
-             /\ stack = <<[t |-> "cfg", p |-> e, pc |-> ProcEntry[e], amt |-> 0, sro |-> TRUE, ds |-> {}, iv |-> FALSE,
+             /\ stack = <<[t |-> "cfg", p |-> e, pc |-> ProcEntry[e], amt |-> 0, sro |-> TRUE, ds |-> {}, nn |-> {}, iv |-> FALSE,
                            ro |-> (e \in ReadOnlyEntries), nv0 |-> 0]>>
              /\ lastAct = [name |-> "Enter", proc |-> e, pc |-> 0, k |-> "", src |-> ""]
 
@@ -161,6 +162,10 @@ Step ==
              [] n.k \in {"defer", "undefer"} ->
                   /\ stack' = SetTop([a EXCEPT !.pc = n.t,
                                                !.ds = IF n.k = "defer" THEN a.ds \cup {n.c} ELSE a.ds \ {n.c}])
+                  /\ UNCHANGED <<isQuery, nestedView, fork, sqlHandle, rsWritable, ctxMade, depth, viol>>
+             [] n.k = "nl" ->         \* nil-ness of a tracked variable (slot n.c): = value n.s / unknown / copy of slot n.s
+                  /\ \E v \in (IF n.op = "=" THEN {n.s = 1} ELSE IF n.op = "cp" THEN {n.s \in a.nn} ELSE BOOLEAN) :
+                        stack' = SetTop([a EXCEPT !.pc = n.t, !.nn = IF v THEN a.nn \cup {n.c} ELSE a.nn \ {n.c}])
                   /\ UNCHANGED <<isQuery, nestedView, fork, sqlHandle, rsWritable, ctxMade, depth, viol>>
              [] n.k = "exec" ->       \* nested contract execution: (*executor).call with the executor's isView
                   \* (a path on which no context was built cannot get here in the code: it ends)
